@@ -11,6 +11,8 @@ NOTE_S = "reals stand in for floats (IEEE rounding / float32 storage outside the
 CHECKS = {
     "C01": dict(engine="S", text="bounded symbolic execution of the real accessor methods with every spectral bin a symbolic real >= 0 on a fixed family of grids; z3 proves impl == defining integral for all such spectra or returns a spectrum that is replayed in floats", ref="6/C01"),
     "C02": dict(engine="S", text="the real _peak / xrstats / npstats peak code is executed on symbolic 1-D and 2-D spectra (every path = one ordering pattern of the bins); on every path z3 proves the returned period/frequency/direction/spread/alpha/gamma is the one of a highest interior strict local maximum (NaN iff none), with the parabola vertex strictly between the neighbours", ref="6/C02"),
+    "C04": dict(engine="L", text="the LLVM IR clang emits for the current specpart.c is interpreted symbolically on spectra whose bins are symbolic reals; every feasible path (level assignment x tie-breaks) ends in a concrete label map that an independent flood-fill reference must accept (all bins labelled, one connected basin per regional maximum of the discretised field, circular in direction), re-run on every circular shift; neighbour table checked for every shape up to 8x8; consecutive calls with different shapes against a fresh state", ref="6/C04",
+                note="real arithmetic stands in for the float discretisation; clang's -O0 IR trusted; counterexamples are replayed on an AddressSanitizer/UBSan build of the real C file", technique="symbolic execution of the compiler's IR (own interpreter) + SMT for path feasibility, memory-safety and overflow obligations; counterexample replay under sanitizers"),
     "C05": dict(engine="S", text="relational symbolic runs of every catalogue operation on the same symbolic data stored with dims transposed, directions rolled by every offset and reversed: z3 proves label-for-label equality; for the C boundary the strides numpy really hands to specpart.partition (recorded on 10 layout/dtype variants through the real wrappers) are checked by SMT against the address map of the C code and mismatches are replayed against the real extension", ref="6/C05"),
     "C06": dict(engine="S", text="batched symbolic datasets with independent variables per position: z3 proves op(batch)[p] == op(batch[p]) for every catalogue operation and a syntactic support check shows the result at p mentions no variable of another position; Dataset accessor == efth accessor", ref="6/C06"),
     "C08": dict(engine="S", text="regrid_spec / interp / rotate executed on symbolic spectra with the xarray interpolation replaced by a differential-tested 1-D linear contract; z3 proves the output equals the periodic-linear reference bin by bin (exact on nodes, both seam neighbours used), non-negativity, zero above fmax, Hs conservation under maintain_m0, whole-bin rotation == circular shift", ref="6/C08"),
